@@ -172,10 +172,11 @@ func MessageKey(msg *pb.XuperMessage) string {
 
 	header := msg.GetHeader()
 	buf := new(bytes.Buffer)
-	buf.WriteString(header.GetType().String())
-	buf.WriteString(header.GetBcname())
-	buf.WriteString(header.GetFrom())
-	buf.WriteString(header.GetLogid())
+	// every field with its length in front: run together, "xu"+"per1" and "xuper"+"1" are one key
+	for _, field := range []string{header.GetType().String(), header.GetBcname(), header.GetFrom(), header.GetLogid()} {
+		buf.WriteString(fmt.Sprintf("%d:", len(field)))
+		buf.WriteString(field)
+	}
 	buf.WriteString(fmt.Sprintf("%d", header.GetDataCheckSum()))
 	return utils.F(hash.DoubleSha256(buf.Bytes()))
 }
